@@ -148,6 +148,18 @@ class Tr:
         return m.group(1)
 
     def stmts(self, text, env, sinks, state):
+        """one block: the secondary sink must be flushed in the block that created it (a flush at another nesting depth — inside a
+        conditional, or after the loop body that created it ended — is not equivalent to writing to one sink)"""
+        state["depth"] = state.get("depth", 0) + 1
+        try:
+            out = self._stmts(text, env, sinks, state)
+            if state.get("secondary") and state.get("secondary_depth") == state["depth"]:
+                raise Unrecognised("secondary sink %s not flushed in the block that created it" % state["secondary"])
+            return out
+        finally:
+            state["depth"] -= 1
+
+    def _stmts(self, text, env, sinks, state):
         """-> list of Emit terms (python tuples).  state['dirty'] tracks writes to the primary sink after a secondary sink exists"""
         out = []
         i = 0
@@ -163,15 +175,18 @@ class Tr:
             if m:
                 if sinks and state.get("secondary"):
                     raise Unrecognised("more than one secondary sink")
+                if m.group(1) in sinks:
+                    raise Unrecognised("sink %s declared twice" % m.group(1))
                 if sinks:
                     state["secondary"] = m.group(1)
+                    state["secondary_depth"] = state["depth"]
                     state["dirty"] = False
                 sinks.add(m.group(1))
                 i += m.end()
                 continue
             m = re.match(r"(\w+)\s*\.\s*append\s*\(\s*&mut\s+(\w+)\s*\)\s*;", rest)
             if m:
-                if m.group(1) not in sinks or m.group(2) != state.get("secondary") or state.get("dirty"):
+                if m.group(1) not in sinks or m.group(2) != state.get("secondary") or state.get("dirty") or state.get("secondary_depth") != state["depth"]:
                     raise Unrecognised("append of a sink that is not flush-equivalent")
                 state["secondary"] = None
                 sinks.discard(m.group(2))
@@ -192,7 +207,7 @@ class Tr:
                         depth -= 1
                         if depth == 0:
                             break
-                arg = re.sub(r"\s+", "", rest[m.end():j])
+                arg = re.sub(r"\s+", "", rest[m.end():j]).rstrip(",")
                 k = j + 1
                 mm = re.match(r"\s*;?", rest[k:])
                 i += k + mm.end()
@@ -316,7 +331,36 @@ def translate(src, ty):
     prog = tr.stmts(body, {"self": ty}, sinks, state)
     if sinks != {"result"} or state.get("secondary"):
         raise Unrecognised("%s::to_be_bytes: sinks %r" % (ty, sorted(sinks)))
-    return prog
+    return alpha_normalise(prog)
+
+
+def alpha_normalise(prog, env=None, depth=0):
+    """binder names are replaced by `b<nesting depth>`: the emitted program depends on the STRUCTURE of the exporter only, never on how the
+    source names its loop / pattern variables (a rename is not a change)"""
+    env = dict(env or {})
+    out = []
+
+    def rp(path):
+        return [env.get(path[0], path[0])] + list(path[1:])
+    for e in prog:
+        k = e[0]
+        if k == "num":
+            out.append([k, rp(e[1]), e[2]])
+        elif k in ("bytes", "value", "payload"):
+            out.append([k, rp(e[1])])
+        elif k in ("each", "whenSome"):
+            b = "b%d" % depth
+            env2 = dict(env)
+            env2[e[2]] = b
+            out.append([k, rp(e[1]), b, alpha_normalise(e[3], env2, depth + 1)])
+        elif k == "whenVariant":
+            b = "b%d" % depth
+            env2 = dict(env)
+            env2[e[3]] = b
+            out.append([k, rp(e[1]), e[2], b, alpha_normalise(e[4], env2, depth + 1)])
+        else:
+            raise ValueError(k)
+    return out
 
 
 def lean_path(p):
